@@ -45,11 +45,12 @@ type Engine struct {
 	axioms   []*Lemma
 	usedAxioms map[string]string
 	prop     string
+	regionRef map[string]string // leaf region -> "ref" | "map:<key sort>" when it stores references
 }
 
 func newEngine() *Engine {
 	return &Engine{pkgs: map[string]*PkgInfo{}, cs: newContractSet(), regions: map[string]regionInfo{}, typeTags: map[string]int{},
-		tagTypes: map[int]types.Type{}, closures: map[Term]Val{}, boxes: map[Term]Val{}, ufs: map[string]ufInfo{}, usedAxioms: map[string]string{}, texts: map[*ssa.Function]map[ssa.Value]string{}}
+		tagTypes: map[int]types.Type{}, closures: map[Term]Val{}, boxes: map[Term]Val{}, ufs: map[string]ufInfo{}, usedAxioms: map[string]string{}, regionRef: map[string]string{}, texts: map[*ssa.Function]map[ssa.Value]string{}}
 }
 
 // load loads the given package patterns of one module directory.
@@ -371,6 +372,23 @@ func (eng *Engine) readContracts(mirror string) {
 			continue
 		}
 		found := false
+		// The committed copy under /verif/contracts/repo is the specification of
+		// record: the file in /repo is used when it is byte-identical, otherwise
+		// (missing, edited or weakened in the tree under check) the mirror is used
+		// and the evidence says so.
+		if mirror != "" && len(pi.GoFiles) > 0 {
+			if rel, err := filepath.Rel(eng.repo, filepath.Dir(pi.GoFiles[0])); err == nil {
+				mf := filepath.Join(mirror, rel, "zz_contracts_verif.go")
+				if mdata, err := os.ReadFile(mf); err == nil {
+					rdata, rerr := os.ReadFile(filepath.Join(eng.repo, rel, "zz_contracts_verif.go"))
+					if rerr != nil || string(rdata) != string(mdata) {
+						eng.fromMirror = append(eng.fromMirror, rel)
+						eng.parseContractText(string(mdata), path, pi.Types.Name(), mf)
+						continue
+					}
+				}
+			}
+		}
 		for _, f := range pi.Syntax {
 			fn := eng.fset.Position(f.Pos()).Filename
 			if filepath.Base(fn) != "zz_contracts_verif.go" {
